@@ -66,6 +66,7 @@ def _compute_c(x, z, eps=0.00001):
 def _gaus_dens(mean, var, x):
     """ evaluate the gaussian density (mean,var) at points x
     """
+    x = np.asarray(x, dtype=np.float64)
     Q = - (x - mean) ** 2 / (2 * var)
     return 1. / np.sqrt(2 * np.pi * var) * np.exp(Q)
 
@@ -77,6 +78,7 @@ def _gam_dens(shape, scale, x):
     -----
     Returns 0 on negative subspace
     """
+    x = np.asarray(x, dtype=np.float64)
     ng = np.zeros(np.size(x))
     cst = - shape * np.log(scale) - sp.gammaln(shape)
     i = np.ravel(np.nonzero(x > 0))
@@ -99,6 +101,7 @@ def _gam_param(x, z):
     if no point is positive then the couple (1, 1) is returned
     """
     eps = 1.e-5
+    x = np.asarray(x, dtype=np.float64)
     i = np.ravel(np.nonzero(x > 0))
     szi = np.sum(z[i])
     if szi > 0:
@@ -401,6 +404,7 @@ class GGGM:
                 self.mixt = np.ravel(mixt)
             else:
                 raise ValueError('bad size for mixt')
+        x = np.asarray(x, dtype=np.float64)
 
         # gaussian
         self.mean = np.mean(x)
@@ -495,6 +499,7 @@ class GGGM:
             probabilistic membership
         """
         tiny = 1.e-15
+        x = np.asarray(x, dtype=np.float64)
         sz = np.maximum(np.sum(z, 0), tiny)
         self.mixt = sz / np.sum(sz)
 
@@ -626,6 +631,7 @@ class GGGM:
         ng,y,pg: three arrays of shape(nbitem)
             The likelihood of the data under the 3 components
         """
+        x = np.asarray(x, dtype=np.float64)
         ng = _gam_dens(self.shape_n, self.scale_n, - x)
         y = _gaus_dens(self.mean, self.var, x)
         pg = _gam_dens(self.shape_p, self.scale_p, x)
